@@ -67,6 +67,13 @@ def descriptions(tier, rnd):
     out.append(('start = /\\d/ between {\n prefix: "-"\n right: "^"\n left: "+", "-"\n postfix: "!"\n}\nignore " "\n',
                 ['1+1', '1 + 1', '-1^1^1', '1!', '1+', '', '1 - -1!', '1^', '2']))
     out.append(('start = P*\n' + c10.PRELUDE + c10.IGN, ['1a', '1a 1b', ' 1a1', '1a\n1b', '1a:b', '']))
+    # inline Python whose behaviour depends on how the module was compiled (assert statements, __debug__, docstrings)
+    out.append(('```\ndef chk(x):\n    assert x != "bad", "no"\n    return x\n```\nstart = /[a-z]+/ |> `chk`\n', ['ok', 'bad', 'b', '']))
+    out.append(('```\ndef dbg(x):\n    return [x, __debug__]\n```\nstart = /[a-z]+/ |> `dbg`\n', ['ok', '']))
+    out.append(('```\ndef doc(x):\n    "the docstring"\n    return [x, doc.__doc__]\n```\nstart = /[a-z]+/ |> `doc`\n', ['ok', '']))
+    # anonymous ignore patterns with and without a header
+    out.append(('start = W*\nW = /[a-z]+/\nignore /[ ]+/\nignore /#[a-z]*/\n', ['ab cd', 'ab #x cd', ' ab', 'ab#', '']))
+    out.append(('ignore /[ ]+/\nclass K { w: /[a-z]+/ }\nstart = K+\n', ['ab cd', ' ab', 'ab  ', '']))
     return out
 
 
